@@ -39,6 +39,7 @@ type meCfg struct {
 	R, D  time.Duration
 	Late  bool
 	Setup []string // non-initial root: operations applied before the exploration starts
+	Depth int      // 0: default depth of the tier
 }
 
 func (c meCfg) String() string {
@@ -366,6 +367,8 @@ func (w *meWorld) Do(op string) {
 			return
 		}
 		w.safety("timer", pre)
+		w.refTime()
+		w.afterTransition("timer", pre, false)
 		w.afterOp(pre, "fire")
 	default:
 		panic(vsched.CheckError{Msg: "unknown op " + op})
@@ -464,16 +467,18 @@ func (w *meWorld) afterTransition(kind, pre string, isOp bool) {
 	if kind != "timer" {
 		w.safety(kind, pre)
 	}
-	if w.cfg.Late {
-		return
-	}
 	// W1: a recovering current endpoint stays while nothing better is available
-	if w.cfg.R > 0 && w.inList(pre) && w.st[pre].state == stRecovering {
+	// (a lower bound by the clock: it holds with late timers as well, which can
+	// only delay the end of a window, never hasten it)
+	if w.cfg.R > 0 && w.inList(pre) && w.st[pre].state == stRecovering && w.s.Clock().Before(w.st[pre].until.Add(-tol)) {
 		if ta := w.topAvail(); ta == "" || w.prio(ta) > w.prio(pre) {
 			if cur != pre {
 				w.violate("C14", "C14.W1", "left a recovering current endpoint during "+kind, desc)
 			}
 		}
+	}
+	if w.cfg.Late {
+		return
 	}
 	if w.cfg.D == 0 {
 		if exp := w.refExpected(pre); cur != exp {
@@ -656,6 +661,15 @@ func meConfigs(thorough bool) []meCfg {
 		}
 		out = append(out, meCfg{Init: []string{"A", "B", "C"}, R: tm[0], D: tm[1], Setup: setup})
 	}
+	// late timers (a due timer runs after further operations; Stop() on it fails), from a
+	// root where the current endpoint's recovery timer is due but has not run yet
+	for ti, tm := range timers {
+		if tm[0] == 0 || (!thorough && ti == 5) {
+			continue
+		}
+		out = append(out, meCfg{Init: []string{"A", "B"}, R: tm[0], D: tm[1], Late: true, Depth: 3,
+			Setup: []string{"avail(A,1)", "avail(B,1)", "avail(A,0)", fmt.Sprintf("expire(%d)", tm[0]/ms)}})
+	}
 	if thorough {
 		for _, tm := range timers[1:] {
 			out = append(out, meCfg{Init: []string{"A", "B"}, R: tm[0], D: tm[1], Late: true})
@@ -685,6 +699,12 @@ func checkME(c *vsched.RunCtx, prop string) {
 	for _, i := range idx {
 		cfg := cfgs[i]
 		d := depth
+		if cfg.Depth > 0 {
+			d = cfg.Depth
+			if c.Thorough() {
+				d++
+			}
+		}
 		res := vsched.BFS(vsched.BFSOpts{Name: "me", Config: cfg.String(), Depth: d, DevPerOp: 1, Deadline: c.Deadline, Shard: sub, NShards: nsub,
 			Closure: func(w vsched.World, s *vsched.Sched) { w.(*meWorld).Closure() }},
 			func(s *vsched.Sched) vsched.World { return newMEWorld(s, cfg, prop) })
